@@ -85,6 +85,9 @@ def gen_case(rng, idx: int, nt=(1, 6), nw=(0, 5), method=None) -> dict:
                                                             "end": rng.choice(["\n", "", "\r\n"]), "flush": rng.random() < 0.5})
         # a quarter of the tasks end abnormally after writing: by an exception or by sys.exit()
         tasks.append({"name": f"task_t{t}", "writes": writes, "fail": rng.choice([True, True, "exit"]) if rng.random() < 0.25 else False})
+    if tasks and rng.random() < 0.2:
+        # one task is left through KeyboardInterrupt (after whatever it wrote)
+        rng.choice(tasks)["fail"] = "kbd"
     return {"idx": idx, "tasks": tasks, "method": method or rng.choice(METHODS), "hashseed": rng.randrange(0, 1000),
             "unbuffered": rng.random() < 0.7}
 
@@ -95,6 +98,8 @@ import os
 import subprocess
 import sys
 from pathlib import Path
+
+import pytask
 
 _HERE = Path(__file__).parent
 _SPEC = json.loads((_HERE / "spec.json").read_text())
@@ -120,6 +125,8 @@ def _act(name):
             subprocess.run(["/bin/cat", str(_HERE / w["file"])], check=True)
         elif k == "child2":
             subprocess.run(["/bin/sh", "-c", 'cat "$0" >&2', str(_HERE / w["file"])], check=True)
+    if t["fail"] == "kbd":
+        raise KeyboardInterrupt   # Ctrl-C while the task runs (or a library raising it)
     if t["fail"] == "exit":
         sys.exit(3)
     if t["fail"]:
@@ -143,7 +150,9 @@ def write_project(d: Path, case: dict) -> None:
                 (d / w["file"]).write_bytes((w["text"] + w["end"]).encode("utf-8"))
             ws.append(w)
         spec[t["name"]] = {"writes": ws, "fail": t["fail"]}
-        src += f"def {t['name']}():\n    _act({t['name']!r})\n\n\n"
+        # an interrupted task stops the build (session.should_stop): it is scheduled last so that every task gets a report
+        deco = "@pytask.mark.try_last\n" if t["fail"] == "kbd" else ""
+        src += f"{deco}def {t['name']}():\n    _act({t['name']!r})\n\n\n"
     (d / "spec.json").write_text(json.dumps(spec))
     (d / "task_cap.py").write_text(src)
 
@@ -227,6 +236,11 @@ def oracle_c14(case: dict, obs: dict) -> list:
     method = case["method"]
     by_name = {t["name"]: t for t in effective_tasks(case)}
     reps = {r["name"]: r for r in obs["reports"]}
+    interrupted = [n for n, t in by_name.items() if t["fail"] == "kbd"]
+    missing = set(by_name) - set(reps)
+    if missing and interrupted and interrupted[0] in reps and obs["reports"][-1]["name"] == interrupted[0]:
+        # documented: after an interrupted task the build stops, tasks not started yet get no report
+        by_name = {n: t for n, t in by_name.items() if n in reps}
     if set(reps) != set(by_name) or len(obs["reports"]) != len(by_name):
         bad.append(("reports", f"reports for {sorted(reps)} but tasks {sorted(by_name)}"))
         return bad
@@ -378,6 +392,8 @@ def corpus_c14() -> list:
         {"name": "task_t11", "fail": False, "writes": [{"kind": "os1", "id": None, "text": '\r\n', "end": '', "flush": False}, w("eprint", 27, "token on the other stream", "\n")]},
         {"name": "task_t12", "fail": "exit", "writes": [{"kind": "child1", "id": None, "text": '\t', "end": '', "flush": False}, {"kind": "os2", "id": None, "text": '\n', "end": '', "flush": False}]},
         {"name": "task_t13", "fail": False, "writes": [{"kind": "print", "id": None, "text": '  ', "end": '\n', "flush": False}, w("print", 28, "between blanks", "\n"), {"kind": "os1", "id": None, "text": ' \r\n', "end": '', "flush": False}, {"kind": "print", "id": None, "text": '', "end": '\n', "flush": False}]},
+        {"name": "task_t14", "fail": "kbd", "writes": [w("print", 29, "before ctrl-c", "\n"), w("eprint", 30, "err before ctrl-c", "\n"), w("os1", 31, "raw1"),
+                                                      w("os2", 32, "raw2"), w("child1", 33, "kid1\n"), w("child2", 34, "kid2")]},
         {"name": "task_t6", "fail": False, "writes": [w("owrite", 14, "py unflushed "), w("os1", 15, "fd "), w("owrite", 16, "py again"),
                                                        w("child1", 17, "kid"), w("print", 18, "tail", "\n"),
                                                        w("ewrite", 19, "e-py "), w("os2", 20, "e-fd "), w("ewrite", 21, "e-py2")]},
